@@ -360,6 +360,10 @@ def ser_napoleon(doc: Sequence[Dict[str, Any]], templates: Dict[str, Any], numpy
             if kind in FREEFORM and ttext is None:
                 emit_blocks(out, body, 4, True, templates, glue=(4, ""), cont=4)
             elif kind in FREEFORM:
+                if any(n["t"] == "lit" for n in body):
+                    # "T: text::" puts the first paragraph left of the blocks that continue it: what follows a literal block
+                    # there cannot be told from the block itself
+                    raise NotExpressible("literal block in a typed google Returns entry")
                 emit_blocks(out, body, 8, True, templates, glue=(4, f"{ttext}: "), cont=8)
             else:
                 emit_blocks(out, body, 8, True, templates, glue=(4, f"{arg} ({ttext}): " if ttext else f"{arg}: "), cont=8)
@@ -545,11 +549,23 @@ def make_source(cases: Sequence[Tuple[Any, ...]]) -> str:
         name, host, ds = case[:3]
         inlines = case[3] if len(case) > 3 else {}
         how = case[4] if len(case) > 4 else "direct"
-        if how == "inherited":
-            # the rendered method overrides the documented one and has no docstring of its own
+        if how in ("inherited", "narrowed"):
+            # the rendered method overrides the documented one and has no docstring of its own (narrowed: and fewer parameters)
             body8 = "\n".join(("        " + ln) if ln else "" for ln in ds.split("\n"))
             src.append(f"class {name}b:\n    def f(self, {PARAMS}):\n        r\"\"\"\n{body8}\n        \"\"\"\n\n"
-                       f"class {name}({name}b):\n    def f(self, {PARAMS}):\n        return 0\n")
+                       f"class {name}({name}b):\n    def f(self, {PARAMS if how == 'inherited' else 'pa'}):\n        return 0\n")
+            continue
+        if how in ("twin", "moved"):
+            # twin: two members of one class with the same docstring text, the rendered one (f / p) is the second
+            # moved: a method of a class (the caller puts the class in a module that declares its own __docformat__)
+            body8 = "\n".join(("        " + ln) if ln else "" for ln in ds.split("\n"))
+            if '"""' in ds or "\\" in ds:
+                raise MachineryError("generated docstring cannot be written as a raw triple-quoted string")
+            deco = "    @property\n" if host == "property" else ""
+            sig = "self" if host == "property" else f"self, {PARAMS}"
+            members = (("q", "p") if host == "property" else ("g", "f")) if how == "twin" else ("f",)
+            src.append(f"class {name}:\n" + "\n".join(f"{deco}    def {m}({sig}):\n        r\"\"\"\n{body8}\n        \"\"\"\n"
+                                                      for m in members))
             continue
         final = ds
         if how == "assigned":
@@ -603,9 +619,19 @@ def render_batch(fmt: str, cases: Sequence[Dict[str, Any]], processtypes: bool =
     from pydoctor import epydoc2stan
     from pydoctor.stanutils import flatten
 
+    moved = [c for c in cases if c.get("how") == "moved"]
+    # "moved" documents are written in a module that declares their docformat; the system's default is another one
     system = make_system(fmt, processtypes)
     builder = system.systemBuilder(system)
-    in_mod = [c for c in cases if c["host"] != "module"]
+    if moved:
+        system.options.docformat = "restructuredtext" if fmt == "epytext" else "epytext"
+        names = [f"o{c['id']}" for c in moved]
+        builder.addModuleString("from ._impl import " + ", ".join(names) + "\n__all__ = " + repr(names) + "\n", "pk", is_package=True)
+        builder.addModuleString(f'__docformat__ = "{fmt}"\n' + make_source([(f"o{c['id']}", "function", c["docstring"], {}, "moved")
+                                                                               for c in moved]), "_impl", parent_name="pk")
+        if len(moved) != len(cases):
+            raise MachineryError("moved documents are rendered in batches of their own")
+    in_mod = [c for c in cases if c["host"] != "module" and c.get("how") != "moved"]
     builder.addModuleString(make_source([(f"o{c['id']}", c["host"], c["docstring"], c.get("inlines", {}), c.get("how", "direct"))
                                          for c in in_mod]), "m")
     for c in cases:
@@ -618,14 +644,15 @@ def render_batch(fmt: str, cases: Sequence[Dict[str, Any]], processtypes: bool =
     builder.buildModules()
     # messages of the build phase (class / module docstrings are parsed there), attributed to the object whose source
     # lines they point into (messages carry "<module>:<line>:")
-    starts = sorted((system.allobjects[f"m.o{c['id']}" + ("b" if c.get("how") == "inherited" else "")].linenumber, f"m.o{c['id']}")
-                    for c in in_mod)
+    starts = sorted((system.allobjects[f"m.o{c['id']}" + ("b" if c.get("how") in ("inherited", "narrowed") else "")].linenumber,
+                     f"m.o{c['id']}") for c in in_mod)
+    starts += sorted((system.allobjects[f"pk.o{c['id']}"].linenumber, f"m.o{c['id']}") for c in moved)
     by_obj: Dict[str, List[str]] = {}
     for (_, m) in system.log:
-        mm = re.match(r"^(\w+):(\d+): ", m)
+        mm = re.match(r"^([\w.]+):(\d+): ", m)
         if not mm:
             continue
-        if mm.group(1) == "m":
+        if mm.group(1) in ("m", "pk", "pk._impl"):
             k = bisect.bisect_right(starts, (int(mm.group(2)), "~")) - 1
             if k >= 0:
                 by_obj.setdefault(starts[k][1], []).append(m)
@@ -639,15 +666,25 @@ def render_batch(fmt: str, cases: Sequence[Dict[str, Any]], processtypes: bool =
             full += ".p"
         elif c["host"] == "attribute":
             full += ".a"
-        if c.get("how") == "inherited":
-            full += ".f"
+        how = c.get("how", "direct")
+        first = None
+        if how in ("inherited", "narrowed"):
+            # the documented method is rendered first, the overriding one after it: both use the linker of the source
+            full, first = full + ".f", f"m.o{c['id']}b.f"
+        elif how == "twin":
+            first = f"m.o{c['id']}." + ("q" if c["host"] == "property" else "g")
+            full += "" if c["host"] == "property" else ".f"
+        elif how == "moved":
+            full = f"pk.o{c['id']}.f"
         obj = system.allobjects[full]
         n0 = len(system.log)
-        # an attribute's type is rendered in its header, before its docstring
-        if c.get("how") == "inherited":
-            # the documented method is rendered first, the overriding one after it: both use the linker of the source
-            flatten(epydoc2stan.format_docstring(system.allobjects[f"m.o{c['id']}b.f"]))
-        type_stan = epydoc2stan.type2stan(obj) if c["host"] == "attribute" else None
+        if first is not None:
+            fo = system.allobjects[first]
+            if c["host"] == "property":
+                epydoc2stan.type2stan(fo)
+            flatten(epydoc2stan.format_docstring(fo))
+        # the type of an attribute / property is rendered in its header, before its docstring
+        type_stan = epydoc2stan.type2stan(obj) if c["host"] in ("attribute", "property") else None
         type_html = flatten(type_stan) if type_stan is not None else ""
         html = flatten(epydoc2stan.format_docstring(obj))
         attr_html = {}
@@ -655,7 +692,7 @@ def render_batch(fmt: str, cases: Sequence[Dict[str, Any]], processtypes: bool =
             ao = system.allobjects.get(f"{full}.{a}")
             if ao is not None:
                 attr_html[a] = flatten(epydoc2stan.format_docstring(ao))
-        held = system.allobjects[f"m.o{c['id']}b.f"].docstring if c.get("how") == "inherited" else obj.docstring
+        held = system.allobjects[first].docstring if how in ("inherited", "narrowed") else obj.docstring
         res.append({"docstring": held, "html": html, "attr_html": attr_html, "type_html": type_html,
                     "log": build_log + [m for (_, m) in system.log[n0:]]})
     return res
@@ -810,11 +847,15 @@ def judge(rec: Dict[str, Any], fmt: str, docstring: str, r: Dict[str, Any],
             if not ((o is not None and iw in o["body"]) or any("Docstring ignored" in m for m in log)):
                 bad.append({"invariant": "InlineDocstringShownOrReported", "field": {"index": fidx, "kind": kind, "arg": arg},
                             "expected": [iw], "observed": o["body"] if o else None, "warnings": log})
+        typeline_ok = False
         if f["where"] == "typeline":
             tw = words_of(parse_html(r.get("type_html", "")).spaced_text())
             shown += tw
-            if tw == fw:
-                ok = words_ok = True
+            typeline_ok = tw == fw
+            ok = words_ok = typeline_ok
+        # (a property's rtype that arrives through a __doc__ assignment is an ordinary field of the Returns row)
+        if f["where"] == "typeline" and (typeline_ok or rec["host"] != "property"):
+            pass
         elif f["where"] == "attribute":
             o = attr_obs.get(arg)
             ok = o is not None and o["body"] == fw and o["pre"] == fpre
@@ -897,6 +938,7 @@ def tlc_documents(ctx: Ctx, cfg: str, timeout: int = 1500) -> Tuple[List[Dict[st
             docs.setdefault(json.dumps(rec["doc"], sort_keys=True) + rec["host"] + rec.get("how", "direct"), rec)
     if templates is None or not docs:
         raise MachineryError("DocModel emitted nothing")
+    r.printed, r.out = [], ""            # (hundreds of thousands of records in thorough: keep only the documents)
     return list(docs.values()), templates, r
 
 
@@ -949,13 +991,64 @@ def work(args: Tuple[Any, ...]) -> Dict[str, Any]:
     return out
 
 
+def shape_of(rec: Dict[str, Any]) -> str:
+    return rec["host"] + "/" + rec.get("how", "direct") + "/" + ",".join(
+        n["t"] + ":" + str(n.get("kind", n.get("lt", ""))) + ":" + str(n.get("form", "")) + ":" + str(n.get("lv", 0)) for n in rec["doc"])
+
+
+def stratified_sample(recs: List[Dict[str, Any]], n: int, rng: Any) -> List[Dict[str, Any]]:
+    """n documents, one from every shape class in turn (classes and members in a seed-determined order)"""
+    groups: Dict[str, List[Dict[str, Any]]] = {}
+    for x in sorted(recs, key=lambda x: json.dumps(x["doc"], sort_keys=True) + x["host"] + x.get("how", "")):
+        groups.setdefault(shape_of(x), []).append(x)
+    order = sorted(groups)
+    rng.shuffle(order)
+    for k in order:
+        rng.shuffle(groups[k])
+    out: List[Dict[str, Any]] = []
+    while len(out) < n and order:
+        for k in list(order):
+            out.append(groups[k].pop())
+            if not groups[k]:
+                order.remove(k)
+            if len(out) >= n:
+                break
+    return out
+
+
+def run_documents_multi(ctx: Ctx, jobs: Sequence[Tuple[List[Dict[str, Any]], Dict[str, Any], Sequence[str], Dict[str, Any]]],
+                        batch: int = 200) -> List[List[Dict[str, Any]]]:
+    """run_documents for several configurations with ONE pool of workers; returns the outputs per job"""
+    import multiprocessing as mp
+    from pydoctor import epydoc2stan, model, stanutils                                   # noqa: F401
+    from pydoctor.epydoc.markup import epytext, restructuredtext, google, numpy, plaintext  # noqa: F401
+    tasks: List[Tuple[Any, ...]] = []
+    owner: List[int] = []
+    for j, (recs, templates, formats, opts) in enumerate(jobs):
+        moved = [x for x in recs if x.get("how") == "moved"]             # rendered in batches of their own
+        rest = [x for x in recs if x.get("how") != "moved"]
+        for part in (rest, moved):
+            for fmt in formats:
+                for ch in chunks(part, batch):
+                    tasks.append((fmt, list(ch), templates, opts))
+                    owner.append(j)
+    res: List[List[Dict[str, Any]]] = [[] for _ in jobs]
+    if tasks:
+        with mp.get_context("fork").Pool(max(1, min(os.cpu_count() or 4, 16, len(tasks)))) as pool:
+            for j, o in zip(owner, pool.map(work, tasks, chunksize=1)):
+                res[j].append(o)
+    return res
+
+
 def run_documents(ctx: Ctx, recs: List[Dict[str, Any]], templates: Dict[str, Any], formats: Sequence[str],
                   batch: int = 250, opts: Optional[Dict[str, Any]] = None) -> List[Dict[str, Any]]:
     import multiprocessing as mp
     # import the implementation once, in the parent: the forked workers inherit it instead of importing it 16 times per pool
     from pydoctor import epydoc2stan, model, stanutils                                   # noqa: F401
     from pydoctor.epydoc.markup import epytext, restructuredtext, google, numpy, plaintext  # noqa: F401
-    tasks = [(fmt, list(ch), templates, opts or {}) for fmt in formats for ch in chunks(recs, batch)]
+    moved = [x for x in recs if x.get("how") == "moved"]
+    rest = [x for x in recs if x.get("how") != "moved"]
+    tasks = [(fmt, list(ch), templates, opts or {}) for part in (rest, moved) for fmt in formats for ch in chunks(part, batch)]
     nproc = max(1, min(os.cpu_count() or 4, 16, len(tasks)))
     with mp.get_context("fork").Pool(nproc) as pool:
         return pool.map(work, tasks, chunksize=1)
@@ -1116,25 +1209,27 @@ def plan(ctx: Ctx) -> List[Dict[str, Any]]:
     rep = ["param", "return", "note", "custom", "ivar"]
     if ctx.quick:
         return [
-            dict(name="structure<=3", actions=3, depth=3, fields=2, kinds=rep, blocks=ALL_BLOCKS, free=False, sample=None),
+            dict(name="structure<=3", actions=3, depth=3, fields=2, kinds=rep, blocks=ALL_BLOCKS, free=False, sample=1600),
             dict(name="fields", actions=2, depth=1, fields=2, kinds=ALL_KINDS, blocks=["para"], free=False, sample=None),
             dict(name="structure=4", actions=4, depth=3, fields=1, kinds=["param", "note"], blocks=ALL_BLOCKS, free=False,
-                 sample=500),
+                 sample=400),
             dict(name="styles-free<=2", actions=2, depth=1, fields=2, kinds=["param", "returns", "note"], blocks=["para"], free=True,
-                 sample=1200),
+                 sample=800),
             dict(name="history-fault<=3", actions=3, depth=1, fields=2, kinds=["param", "return", "note", "ivar"],
-                 blocks=["para", "list", "doctest", "poison"], free=False, sample=1500, hows=["assigned", "inherited", "direct"],
+                 blocks=["para", "list", "doctest", "poison"], free=False, sample=900, hows=["assigned", "inherited", "direct"],
                  need="history-or-fault"),
+            dict(name="histories<=3", actions=3, depth=1, fields=2, kinds=["param", "return", "rtype", "note"], blocks=["para", "list"],
+                 free=False, sample=900, hows=["twin", "narrowed", "moved"], need="history"),
             dict(name="version-directive<=3", actions=3, depth=1, fields=1, kinds=["param", "note"], blocks=["para", "list", "version"],
-                 free=False, sample=1500, formats=["restructuredtext", "google", "numpy", "plaintext"], need="version"),
+                 free=False, sample=400, formats=["restructuredtext", "google", "numpy", "plaintext"], need="version"),
             dict(name="typed-fields<=4", actions=4, depth=1, fields=4, kinds=["param", "type", "return", "rtype"], blocks=["typed"],
-                 free=False, sample=1000, hows=["direct", "inherited"], processtypes=True,
+                 free=False, sample=600, hows=["direct", "inherited"], processtypes=True,
                  formats=["epytext", "restructuredtext", "google", "numpy"], need="typed"),
             dict(name="numpy-see-also<=3", actions=4, depth=1, fields=3, kinds=["seealso", "param"], blocks=["para"], free=False,
-                 sample=None, forms=["plain", "nsee"], formats=["numpy"], need_form="nsee"),
+                 sample=900, forms=["plain", "nsee"], formats=["numpy"], need_form="nsee"),
             dict(name="rst-consolidated<=3", actions=3, depth=2, fields=2, kinds=["param", "keyword", "except", "ivar", "type"],
                  blocks=["para", "list", "lit"],
-                 free=False, sample=1200, forms=["plain", "cbullet", "cdef"], formats=["restructuredtext"]),
+                 free=False, sample=800, forms=["plain", "cbullet", "cdef"], formats=["restructuredtext"]),
         ]
     return [
         dict(name="structure<=4", actions=4, depth=3, fields=2, kinds=rep, blocks=ALL_BLOCKS, free=False, sample=None),
@@ -1146,6 +1241,8 @@ def plan(ctx: Ctx) -> List[Dict[str, Any]]:
              sample=25000),
         dict(name="nesting<=6", actions=6, depth=3, fields=0, kinds=[], blocks=["para", "list", "lit", "doctest"], free=False,
              sample=20000),
+        dict(name="histories<=4", actions=4, depth=2, fields=3, kinds=["param", "return", "rtype", "note", "keyword"],
+             blocks=["para", "list", "lit"], free=False, sample=20000, hows=["twin", "narrowed", "moved"], need="history"),
         dict(name="history-fault<=4", actions=4, depth=2, fields=2, kinds=["param", "return", "note", "ivar", "raises"],
              blocks=["para", "list", "lit", "doctest", "poison"], free=False, sample=12000, hows=["assigned", "inherited", "direct"],
              need="history-or-fault"),
@@ -1184,7 +1281,13 @@ def run(ctx: Ctx) -> int:
     all_exhaustive = True
     whole_pool: List[Dict[str, Any]] = []
     whole_templates: Dict[str, Any] = {}
-    for pl in plan(ctx):
+    plans = plan(ctx)
+    ctx.spec_dir()                        # stage the specs once, the enumerations below run concurrently
+
+    def enumerate_cfg(job: Tuple[int, Dict[str, Any]]) -> Tuple[List[Dict[str, Any]], Dict[str, Any], Any, int]:
+        """TLC enumeration of one configuration, filtered to what the configuration is about and (quick / large spaces)
+        sampled at once - deterministic for a seed, stratified by shape - so that only the sample stays in memory"""
+        idx, pl = job
         cfg = CFG.format(actions=pl["actions"], depth=pl["depth"], fields=pl["fields"], kinds=tla_set(pl["kinds"]),
                          blocks=tla_set(pl["blocks"]), forms=tla_set(pl.get("forms", ["plain"])),
                          hows=tla_set(pl.get("hows", ["direct"])), free="TRUE" if pl["free"] else "FALSE")
@@ -1195,18 +1298,40 @@ def run(ctx: Ctx) -> int:
             recs = [x for x in recs if any(n["t"] == "version" for n in x["doc"])]
         elif pl.get("need") == "history-or-fault":
             recs = [x for x in recs if x["how"] != "direct" or x["fault"] >= 0]
+        elif pl.get("need") == "history":
+            recs = [x for x in recs if x["how"] != "direct"]
         if pl.get("forms"):
             # documents without a consolidated field are the business of the other configurations
             recs = [x for x in recs if any(n["t"] == "field" and (n["form"] == pl["need_form"] if pl.get("need_form")
                                                                   else n["form"] != "plain") for n in x["doc"])]
         enumerated = len(recs)
         if pl["sample"] is not None and len(recs) > pl["sample"]:
-            recs.sort(key=lambda x: json.dumps(x["doc"], sort_keys=True) + x["host"])
-            recs = rng.sample(recs, pl["sample"])
+            recs = stratified_sample(recs, pl["sample"], random.Random(ctx.seed * 1000 + idx))
+        return recs, templates, r, enumerated
+
+    if ctx.quick:
+        ep_cfgs = [dict(n=3, indents="{0, 2, 4}", bullets='{"u", "o1", "o2", "f"}', levels="{0, 1}"),
+                   dict(n=4, indents="{0, 2}", bullets='{"u", "o1", "f"}', levels="{1}")]
+    else:
+        ep_cfgs = [dict(n=4, indents="{0, 2, 4}", bullets='{"u", "o1", "o2", "f"}', levels="{0, 1}"),
+                   dict(n=5, indents="{0, 2}", bullets='{"u", "o1", "f"}', levels="{0, 1}")]
+    from concurrent.futures import ThreadPoolExecutor
+    with ThreadPoolExecutor(max_workers=4 if ctx.quick else 2) as ex:
+        enumerated_cfgs = list(ex.map(enumerate_cfg, list(enumerate(plans))))
+        # (the Epytext enumerations of the second half of the check)
+        ep_results = list(ex.map(lambda ec: ctx.tlc("Epytext", EP_CFG.format(**ec), workers=(6 if ctx.quick else "auto"), check=True,
+                                                    coverage=ctx.quick, timeout=3000), ep_cfgs))
+
+    per_cfg: List[Tuple[Dict[str, Any], List[Dict[str, Any]], Dict[str, Any], Any, int]] = []
+    for pl, (recs, templates, r, enumerated) in zip(plans, enumerated_cfgs):
+        if len(recs) < enumerated:
             all_exhaustive = False
         if not whole_pool:
             whole_pool, whole_templates = list(recs), templates
-        outs = run_documents(ctx, recs, templates, pl.get("formats", FORMATS), opts={"processtypes": bool(pl.get("processtypes"))})
+        per_cfg.append((pl, recs, templates, r, enumerated))
+    all_outs = run_documents_multi(ctx, [(recs, templates, pl.get("formats", FORMATS), {"processtypes": bool(pl.get("processtypes"))})
+                                         for (pl, recs, templates, r, enumerated) in per_cfg])
+    for (pl, recs, templates, r, enumerated), outs in zip(per_cfg, all_outs):
         for o in outs:
             st = stats[o["fmt"]]
             st["rendered"] += o["rendered"]
@@ -1290,19 +1415,12 @@ def run(ctx: Ctx) -> int:
 
     # ------------------------------------------------------------------ Epytext.tla <-> epytext.parse
     import multiprocessing as mp
-    if ctx.quick:
-        ep_cfgs = [dict(n=3, indents="{0, 2, 4}", bullets='{"u", "o1", "o2", "f"}', levels="{0, 1}"),
-                   dict(n=4, indents="{0, 2}", bullets='{"u", "o1", "f"}', levels="{1}")]
-    else:
-        ep_cfgs = [dict(n=4, indents="{0, 2, 4}", bullets='{"u", "o1", "o2", "f"}', levels="{0, 1}"),
-                   dict(n=5, indents="{0, 2}", bullets='{"u", "o1", "f"}', levels="{0, 1}")]
     ep_tot = {"sequences": 0, "unrealisable": 0, "with_fatal_error": 0, "escaping_exception": 0, "drift": 0,
               "fields_not_last_without_error": 0}
     fnl_texts: List[str] = []
     seen_seq = set()
     ep_records: List[Dict[str, Any]] = []
-    for i, ec in enumerate(ep_cfgs):
-        r = ctx.tlc("Epytext", EP_CFG.format(**ec), workers="auto", check=True, coverage=ctx.quick, timeout=2400)
+    for i, r in enumerate(ep_results):
         if r.violated:
             ctx.extra.setdefault("epytext_design_level_violations", []).extend(r.violated)
         if r.coverage:
